@@ -2,7 +2,7 @@
 (* C06: a kill terminates the whole subtree, children first, each reported    *)
 (* once; parent (and watchers) get exactly one OnKilled; the path is released. *)
 EXTENDS Integers, Sequences, FiniteSets, TLC, Json
-VARIABLES l, bad, parent, spawned, killedEv, notified, killAimed, states, zombies, tainted, lateTicks
+VARIABLES l, bad, parent, spawned, killedEv, notified, killAimed, states, zombies, tainted, lateTicks, selfKilled
 
 (***************************************************************************)
 (* Trace alphabet (one JSON object per line, totally ordered by the turn   *)
@@ -22,19 +22,19 @@ Get(f, k, d) == IF k \in DOMAIN f THEN f[k] ELSE d
 Put(f, k, v) == [x \in DOMAIN f \cup {k} |-> IF x = k THEN v ELSE f[x]]
 Flag(rule) == IF bad = "" THEN rule ELSE bad
 Range(s) == {s[i] : i \in 1..Len(s)}
-vars == <<l, bad, parent, spawned, killedEv, notified, killAimed, states, zombies, tainted, lateTicks>>
-Fresh == parent = <<>> /\ spawned = {} /\ killedEv = {} /\ notified = <<>> /\ killAimed = {} /\ states = <<>> /\ zombies = {} /\ tainted = FALSE /\ lateTicks = <<>>
-FreshNext == parent' = <<>> /\ spawned' = {} /\ killedEv' = {} /\ notified' = <<>> /\ killAimed' = {} /\ states' = <<>> /\ zombies' = {} /\ tainted' = FALSE /\ lateTicks' = <<>>
+vars == <<l, bad, parent, spawned, killedEv, notified, killAimed, states, zombies, tainted, lateTicks, selfKilled>>
+Fresh == parent = <<>> /\ spawned = {} /\ killedEv = {} /\ notified = <<>> /\ killAimed = {} /\ states = <<>> /\ zombies = {} /\ tainted = FALSE /\ lateTicks = <<>> /\ selfKilled = {}
+FreshNext == parent' = <<>> /\ spawned' = {} /\ killedEv' = {} /\ notified' = <<>> /\ killAimed' = {} /\ states' = <<>> /\ zombies' = {} /\ tainted' = FALSE /\ lateTicks' = <<>> /\ selfKilled' = {}
 Init == l = 1 /\ bad = "" /\ Fresh
 OnSpawn ==
     /\ (Ev.e = "Spawn")
     /\ parent' = Put(parent, Ev.a, Ev.p) /\ spawned' = spawned \cup {Ev.a}
-    /\ UNCHANGED <<bad, killedEv, notified, killAimed, states, zombies, tainted, lateTicks>>
+    /\ UNCHANGED <<bad, killedEv, notified, killAimed, states, zombies, tainted, lateTicks, selfKilled>>
 OnKillCall ==
     /\ (Ev.e = "KillCall")
     /\ killAimed' = killAimed \cup {Ev.a}
     /\ tainted' = TRUE
-    /\ UNCHANGED <<bad, parent, spawned, killedEv, notified, states, zombies, lateTicks>>
+    /\ UNCHANGED <<bad, parent, spawned, killedEv, notified, states, zombies, lateTicks, selfKilled>>
 OnEvKilled ==
     /\ (Ev.e = "EvKilled")
     /\ killedEv' = killedEv \cup {Ev.a}
@@ -43,40 +43,45 @@ OnEvKilled ==
        IN bad' = IF Ev.a \in killedEv THEN Flag("KilledEventOnce")
                   ELSE IF desc \ killedEv # {} THEN Flag("ChildrenFirst")
                   ELSE bad
-    /\ UNCHANGED <<parent, spawned, notified, killAimed, states, zombies, tainted, lateTicks>>
+    /\ UNCHANGED <<parent, spawned, notified, killAimed, states, zombies, tainted, lateTicks, selfKilled>>
+\* selfKilled: actors whose current incarnation has handled the OnKilled that names itself (the last thing it sees).
+\* Whoever is told "p has terminated" (parent, watcher) is told so only after that - a zombie handles nothing
 OnDeliv ==
     /\ (Ev.e = "Deliv")
-    /\ IF Ev.k # "childkilled" THEN UNCHANGED <<notified, bad, lateTicks>>
+    /\ selfKilled' = IF Ev.k = "killed" THEN selfKilled \cup {Ev.a} ELSE IF Ev.k = "launch" THEN selfKilled \ {Ev.a} ELSE selfKilled
+    /\ IF Ev.k # "childkilled" THEN UNCHANGED <<notified, bad>>
        ELSE LET key == <<Ev.a, Ev.p>> IN
             /\ notified' = Put(notified, key, Get(notified, key, 0) + 1)
-            /\ bad' = IF Get(notified, key, 0) >= 1 THEN Flag("OnKilledOnce") ELSE bad
+            /\ bad' = IF Get(notified, key, 0) >= 1 THEN Flag("OnKilledOnce")
+                       ELSE IF Ev.p \in spawned /\ Ev.p \notin selfKilled /\ Ev.p \notin zombies THEN Flag("ReportedTerminatedOnlyAfterItsOwnOnKilled")
+                       ELSE bad
     /\ UNCHANGED <<parent, spawned, killedEv, killAimed, states, zombies, tainted, lateTicks>>
 OnHook ==
     /\ (Ev.e = "Hook")
     /\ zombies' = IF Ev.v = 0 /\ Ev.k \in {"restarted", "prelaunch"} THEN zombies \cup {Ev.a} ELSE zombies
-    /\ UNCHANGED <<bad, parent, spawned, killedEv, notified, killAimed, states, tainted, lateTicks>>
+    /\ UNCHANGED <<bad, parent, spawned, killedEv, notified, killAimed, states, tainted, lateTicks, selfKilled>>
 OnQBegin ==
     /\ (Ev.e = "QBegin")
     /\ states' = <<>>
-    /\ UNCHANGED <<bad, parent, spawned, killedEv, notified, killAimed, zombies, tainted, lateTicks>>
+    /\ UNCHANGED <<bad, parent, spawned, killedEv, notified, killAimed, zombies, tainted, lateTicks, selfKilled>>
 OnAState ==
     /\ (Ev.e = "AState")
     /\ states' = Put(states, Ev.a, Ev.s)
     /\ bad' = IF Ev.s = "gone" /\ Ev.k # "0/0" THEN Flag("NoSubscriptionsLeft") ELSE bad
-    /\ UNCHANGED <<parent, spawned, killedEv, notified, killAimed, zombies, tainted, lateTicks>>
+    /\ UNCHANGED <<parent, spawned, killedEv, notified, killAimed, zombies, tainted, lateTicks, selfKilled>>
 \* a Watch issued while nothing has been killed or has failed yet is certainly registered before the target can die
 OnWatch ==
     /\ (Ev.e = "Watch")
     /\ notified' = IF ~tainted THEN Put(notified, <<"w", Ev.p, Ev.a>>, 1) ELSE notified
-    /\ UNCHANGED <<bad, parent, spawned, killedEv, killAimed, states, zombies, tainted, lateTicks>>
+    /\ UNCHANGED <<bad, parent, spawned, killedEv, killAimed, states, zombies, tainted, lateTicks, selfKilled>>
 OnUnwatch ==
     /\ (Ev.e = "Unwatch")
     /\ notified' = [key \in DOMAIN notified \ {<<"w", Ev.p, Ev.a>>} |-> notified[key]]
-    /\ UNCHANGED <<bad, parent, spawned, killedEv, killAimed, states, zombies, tainted, lateTicks>>
+    /\ UNCHANGED <<bad, parent, spawned, killedEv, killAimed, states, zombies, tainted, lateTicks, selfKilled>>
 OnFail ==
     /\ (Ev.e = "Fail")
     /\ tainted' = TRUE
-    /\ UNCHANGED <<bad, parent, spawned, killedEv, notified, killAimed, states, zombies, lateTicks>>
+    /\ UNCHANGED <<bad, parent, spawned, killedEv, notified, killAimed, states, zombies, lateTicks, selfKilled>>
 OnQEnd ==
     /\ (Ev.e = "QEnd")
     /\ LET RECURSIVE Anc(_) Anc(x) == IF x \notin DOMAIN parent \/ parent[x] = "root" THEN {} ELSE {parent[x]} \cup Anc(parent[x])
@@ -90,16 +95,20 @@ OnQEnd ==
            unwatched == {key \in DOMAIN notified : /\ Len(key) = 3 /\ key[1] = "w" /\ key[3] \in killedEv
                                                      /\ key[2] \notin killedEv /\ key[2] \notin zombies
                                                      /\ Get(notified, <<key[2], key[3]>>, 0) # 1}
-       IN bad' = IF unwatched # {} THEN Flag("WatcherNotifiedOnce")
+           \* somebody was told that x had terminated, but x is alive and no termination was ever published
+           phantom == {key \in DOMAIN notified : /\ Len(key) = 2 /\ notified[key] >= 1 /\ key[2] \in spawned
+                                                   /\ key[2] \notin killedEv /\ Get(states, key[2], "gone") = "running"}
+       IN bad' = IF phantom # {} THEN Flag("OnlyTerminatedActorsAreReportedTerminated")
+                  ELSE IF unwatched # {} THEN Flag("WatcherNotifiedOnce")
                   ELSE IF \E x \in doomed : Get(states, x, "gone") # "gone" THEN Flag("WholeSubtreeGone")
                   ELSE IF \E x \in killedEv : Get(states, x, "gone") # "gone" THEN Flag("PathReleased")
                   ELSE IF untold # {} THEN Flag("ParentNotifiedOnce")
                   ELSE bad
-    /\ UNCHANGED <<parent, spawned, killedEv, notified, killAimed, states, zombies, tainted, lateTicks>>
+    /\ UNCHANGED <<parent, spawned, killedEv, notified, killAimed, states, zombies, tainted, lateTicks, selfKilled>>
 OnFind ==
     /\ (Ev.e = "Find")
     /\ bad' = IF Ev.v = 1 /\ Ev.a \in killedEv THEN Flag("PathReleased") ELSE bad
-    /\ UNCHANGED <<parent, spawned, killedEv, notified, killAimed, states, zombies, tainted, lateTicks>>
+    /\ UNCHANGED <<parent, spawned, killedEv, notified, killAimed, states, zombies, tainted, lateTicks, selfKilled>>
 OnReset == Ev.e = "Reset" /\ FreshNext /\ UNCHANGED bad
 (* SchedFire a: the job function of a's own Loop job has been entered.  One firing may be under way when a terminates; *)
 (* more means the job outlived its actor ("its scheduled jobs are gone").  (Ticks that were queued in a's mailbox when  *)
@@ -108,8 +117,8 @@ OnLateTick == /\ Ev.e = "SchedFire"
               /\ LET n == IF Ev.a \in killedEv THEN Get(lateTicks, Ev.a, 0) + 1 ELSE Get(lateTicks, Ev.a, 0) IN
                    /\ lateTicks' = Put(lateTicks, Ev.a, n)
                    /\ bad' = IF n > 2 THEN Flag("ScheduledJobsGone") ELSE bad
-              /\ UNCHANGED <<parent, spawned, killedEv, notified, killAimed, states, zombies, tainted>>
-OnOther == (Ev.e \notin {"Spawn", "KillCall", "EvKilled", "Deliv", "Hook", "QBegin", "AState", "QEnd", "Find", "Watch", "Unwatch", "Fail", "Reset", "SchedFire"}) /\ UNCHANGED <<bad, parent, spawned, killedEv, notified, killAimed, states, zombies, tainted, lateTicks>>
+              /\ UNCHANGED <<parent, spawned, killedEv, notified, killAimed, states, zombies, tainted, selfKilled>>
+OnOther == (Ev.e \notin {"Spawn", "KillCall", "EvKilled", "Deliv", "Hook", "QBegin", "AState", "QEnd", "Find", "Watch", "Unwatch", "Fail", "Reset", "SchedFire"}) /\ UNCHANGED <<bad, parent, spawned, killedEv, notified, killAimed, states, zombies, tainted, lateTicks, selfKilled>>
 Next == l <= Len(TLog) /\ l' = l + 1 /\ (OnWatch \/ OnUnwatch \/ OnFail \/ OnSpawn \/ OnKillCall \/ OnEvKilled \/ OnDeliv \/ OnHook \/ OnQBegin \/ OnAState \/ OnQEnd \/ OnFind \/ OnReset \/ OnLateTick \/ OnOther)
 Spec == Init /\ [][Next]_vars
 
